@@ -469,13 +469,14 @@ fn parse_problem(problem: Pair<Rule>, source: &str) -> Result<PreModel, Compilat
         .find_first_tagged("define")
         .map(parse_domains_declaration);
     match (objective, constraints) {
-        (Some(obj), Some(cond)) => Ok(PreModel::new(
+        // the constraint list may be empty, also when a where/define section follows
+        (Some(obj), cond) => Ok(PreModel::new(
             obj?,
-            cond?,
+            cond.unwrap_or(Ok(Vec::new()))?,
             consts.unwrap_or(Ok(Vec::new()))?,
             domain.unwrap_or(Ok(Vec::new()))?,
             Some(source.to_owned()),
         )),
-        _ => bail_missing_token!("Objective and constraints are required", problem),
+        _ => bail_missing_token!("An objective is required", problem),
     }
 }
